@@ -137,8 +137,12 @@ fn class_info(c: u32) -> &'static ClassInfo {
     if let Some(ci) = g.0.get(&c) {
         return ci;
     }
-    let name: &'static str = Box::leak(format!("n{}", c % 4).into_boxed_str());
-    let pairs = label_pairs(c / 4);
+    // classes >= 100000 are "fresh" classes for the key-race engine: a name of their own, label set by c % 4
+    let (name, pairs): (&'static str, Vec<(String, String)>) = if c >= 100_000 {
+        (Box::leak(format!("s{}", c).into_boxed_str()), label_pairs([0u32, 2, 7, 3][(c % 4) as usize]))
+    } else {
+        (Box::leak(format!("n{}", c % 4).into_boxed_str()), label_pairs(c / 4))
+    };
     let mk = |ps: &[(String, String)]| -> &'static [Label] {
         let v: Vec<Label> = ps
             .iter()
@@ -493,7 +497,7 @@ fn stress(nt: usize, iters: usize, seed: u64) -> String {
             n
         })
     };
-    for h in hs { let _ = h.join(); }
+    for h in hs { if h.join().is_err() { let mut e = errors.lock().unwrap(); e.insert(0, "a phase-1 worker thread panicked".to_string()); } }
     // phase 2 (own registry): rounds on keys that all fall into ONE shard. Before a round some keys Y are
     // live; then, released together: half the threads get_or_create the same absent key K (==-equal
     // keys built differently), one thread creates another absent key K2, the others each delete a
@@ -577,7 +581,7 @@ fn stress(nt: usize, iters: usize, seed: u64) -> String {
                 }
             }));
         }
-        for h in hs2 { let _ = h.join(); }
+        for h in hs2 { if h.join().is_err() { let mut e = errors.lock().unwrap(); e.insert(0, "a phase-2 worker thread panicked (round abandoned)".to_string()); } }
     }
     stop.store(true, SeqCst);
     let churn_ops = churner.join().unwrap_or(0);
@@ -607,6 +611,204 @@ fn stress(nt: usize, iters: usize, seed: u64) -> String {
             ops.load(SeqCst), churn_ops, firsts.len(), churn_cons, fresh_rounds, errs.join(" | "))
 }
 
+// ---- key-side state racing registry operations -------------------------------------------------
+// A const-constructed key (Key::from_static_name / from_static_parts / from_static_labels: what the
+// macros emit for static keys) has NOT memoised its hash; its first use through the registry does.
+// While one thread makes that first use, others clone the key and resolve the clones, and another
+// builds an equal key a different way. Whatever the timing: every clone is == the key, reports the
+// same get_hash, reaches the SAME storage (Arc::ptr_eq), exactly one storage is constructed, visit
+// lists the key once, delete through a clone is truthful.
+fn key_site(site: u32) -> bool { (301..=306).contains(&site) }
+
+fn fresh_const_key(c: u32, ctor: usize) -> Key {
+    let ci = class_info(c);
+    match ctor % 3 {
+        0 if ci.labels.is_empty() => Key::from_static_name(ci.name),
+        2 => Key::from_static_labels(ci.name.to_string(), ci.labels),
+        _ => Key::from_static_parts(ci.name, ci.labels),
+    }
+}
+
+fn kr_goc(reg: &Registry<Key, Dbl>, kind: char, key: &Key) -> H {
+    match kind {
+        'c' => reg.get_or_create_counter(key, |h| h.clone()),
+        'g' => reg.get_or_create_gauge(key, |h| h.clone()),
+        _ => reg.get_or_create_histogram(key, |h| h.clone()),
+    }
+}
+fn kr_get(reg: &Registry<Key, Dbl>, kind: char, key: &Key) -> Option<H> {
+    match kind { 'c' => reg.get_counter(key), 'g' => reg.get_gauge(key), _ => reg.get_histogram(key) }
+}
+fn kr_del(reg: &Registry<Key, Dbl>, kind: char, key: &Key) -> bool {
+    match kind { 'c' => reg.delete_counter(key), 'g' => reg.delete_gauge(key), _ => reg.delete_histogram(key) }
+}
+
+#[derive(Default)]
+struct RoundData { user: Option<H>, clones: Vec<Key>, racy: Vec<(String, H)>, racy_gets: Vec<Option<H>> }
+
+// quiescent oracle for one round; the registry holds nothing but this round's key. Returns #clones checked.
+fn kr_check(tag: &str, reg: &Registry<Key, Dbl>, slog: &Mutex<Vec<(char, u32, u64)>>, kind: char, class: u32, key: &Key,
+            rd: &RoundData, err: &mut dyn FnMut(String)) -> usize {
+    let u = match &rd.user { Some(u) => u.clone(), None => { err(format!("{}: the first user of the key produced no storage (worker died?)", tag)); return 0; } };
+    let kh = key.get_hash();
+    for (who, h) in &rd.racy {
+        if !Arc::ptr_eq(&h.0, &u.0) { err(format!("{}: {} reached storage {} but the key's first user got {}", tag, who, h.0.id, u.0.id)); }
+    }
+    for g in rd.racy_gets.iter().flatten() {
+        if !Arc::ptr_eq(&g.0, &u.0) { err(format!("{}: a racing get through a clone returned storage {} not {}", tag, g.0.id, u.0.id)); }
+    }
+    for (n, c) in rd.clones.iter().enumerate() {
+        if c != key { err(format!("{}: clone #{} is not == the key it was cloned from (driver bug?)", tag, n)); }
+        let ch = c.get_hash();
+        if ch != kh { err(format!("{}: clone #{} of an equal key reports get_hash {:#x}, the key {:#x}", tag, n, ch, kh)); }
+        let h = kr_goc(reg, kind, c);
+        if !Arc::ptr_eq(&h.0, &u.0) { err(format!("{}: clone #{} resolves to storage {} but the key it was cloned from to {}", tag, n, h.0.id, u.0.id)); }
+        match kr_get(reg, kind, c) { Some(g) if Arc::ptr_eq(&g.0, &u.0) => {}, _ => err(format!("{}: get through clone #{} does not return the key's storage", tag, n)) }
+    }
+    let v = visit(reg, kind);
+    if v != vec![(class, u.0.id)] { err(format!("{}: visit lists {:?}, expected exactly one entry ({}, {})", tag, v, class, u.0.id)); }
+    let ncons = slog.lock().unwrap().iter().filter(|(k, c, _)| *k == kind && *c == class).count();
+    if ncons != 1 { err(format!("{}: {} storages constructed for one key class", tag, ncons)); }
+    // empty the registry through clones (truthful delete), whatever state it is in
+    let via = rd.clones.last().cloned().unwrap_or_else(|| key.clone());
+    if !kr_del(reg, kind, &via) { err(format!("{}: delete through a clone returned false for a live key", tag)); }
+    if kr_get(reg, kind, key).is_some() || !visit(reg, kind).is_empty() { err(format!("{}: key still present after delete through a clone returned true", tag)); }
+    if kr_del(reg, kind, key) { err(format!("{}: second delete returned true", tag)); }
+    reg.clear();
+    slog.lock().unwrap().clear();
+    rd.clones.len()
+}
+
+fn keyrace(rounds: usize, budget_ms: u64, seed: u64) -> String {
+    let errors: Arc<Mutex<Vec<String>>> = Arc::new(Mutex::new(Vec::new()));
+    let nerr = Arc::new(AtomicU64::new(0));
+    let mut err = { let (errors, nerr) = (errors.clone(), nerr.clone()); move |m: String| { nerr.fetch_add(1, SeqCst); let mut e = errors.lock().unwrap(); if e.len() < 4 { e.push(m); } } };
+    let slog: Arc<Mutex<Vec<(char, u32, u64)>>> = Arc::new(Mutex::new(Vec::new()));
+    let reg = Arc::new(Registry::new(Dbl { next: AtomicU64::new(0), log: slog.clone() }));
+    let mut next_class = 100_000u32 + ((seed % 1000) as u32) * 4;
+
+    // part 1: DIRECTED schedules with the key's own sites (301-306) taking part: thread 0 makes the first use
+    // of a fresh const key through the registry, thread 1 clones it twice; every thread-index sequence of
+    // length 8 (then round-robin), for each const constructor.
+    sched::set_site_filter(Some(key_site));
+    let mut sched_runs = 0usize;
+    let mut sched_clones = 0usize;
+    for ctor in 0..3usize {
+        for bits in 0..256u32 {
+            let c = next_class + [0u32, 1, 2][ctor]; next_class += 4;
+            let kind = ['c', 'g', 'h'][(bits as usize + ctor) % 3];
+            let key: &'static Key = Box::leak(Box::new(fresh_const_key(c, ctor)));
+            let rd = Arc::new(Mutex::new(RoundData::default()));
+            let schedule: Vec<usize> = (0..8).map(|i| ((bits >> i) & 1) as usize).collect();
+            let mut threads: Vec<Box<dyn FnOnce() + Send>> = Vec::new();
+            { let (reg, rd) = (reg.clone(), rd.clone()); threads.push(Box::new(move || { let h = kr_goc(&reg, kind, key); rd.lock().unwrap().user = Some(h); })); }
+            { let rd = rd.clone(); threads.push(Box::new(move || { let a = key.clone(); let b = key.clone(); let mut g = rd.lock().unwrap(); g.clones.push(a); g.clones.push(b); })); }
+            let out = sched::run(&schedule, threads, 10000);
+            let tag = format!("directed schedule {:?} ctor {} kind {}", schedule, ctor, kind);
+            if !out.all_finished { err(format!("{}: threads did not finish", tag)); }
+            let g = rd.lock().unwrap();
+            sched_clones += kr_check(&tag, &reg, &slog, kind, c, key, &g, &mut err);
+            sched_runs += 1;
+        }
+    }
+    sched::set_site_filter(Some(own_site));
+    metrics::__verif::set_callback(None);
+    let sched_failures = nerr.load(SeqCst);
+
+    // part 2: FREE-RUNNING rounds (no scheduler). Workers: 0 = first user of the key (get_or_create on the key
+    // itself); 1, 2 = cloners (a burst of clones, the first few resolved at once by get_or_create / get);
+    // 3 = builds an equal key another way (owned, pre-hashed, labels reversed) and get_or_creates it.
+    const NW: usize = 4;
+    const BURST: usize = 24;
+    let rounds_max = rounds;
+    let keys: Arc<Vec<(&'static Key, u32, char, usize)>> = Arc::new((0..rounds_max).map(|r| {
+        let ctor = r % 3;
+        let c = next_class + [0u32, 1, 2, 3][(r / 3) % 4].min(if ctor == 0 { 0 } else { 3 }); next_class += 4;
+        let key: &'static Key = Box::leak(Box::new(fresh_const_key(c, ctor)));
+        (key, c, ['c', 'g', 'h'][(r / 2) % 3], ctor)
+    }).collect());
+    let go = Arc::new(std::sync::atomic::AtomicUsize::new(0));
+    let done = Arc::new(std::sync::atomic::AtomicUsize::new(0));
+    let stop = Arc::new(std::sync::atomic::AtomicBool::new(false));
+    let rd = Arc::new(Mutex::new(RoundData::default()));
+    let mut hs = Vec::new();
+    for w in 0..NW {
+        let (reg, keys, go, done, stop, rd) = (reg.clone(), keys.clone(), go.clone(), done.clone(), stop.clone(), rd.clone());
+        hs.push(std::thread::spawn(move || {
+            let mut x: u64 = seed.wrapping_mul(0x9E3779B97F4A7C15).wrapping_add(w as u64 * 7919 + 11) | 1;
+            let mut rnd = move || { x ^= x << 13; x ^= x >> 7; x ^= x << 17; x };
+            for r in 0..keys.len() {
+                let mut spins = 0u32;
+                while go.load(SeqCst) <= r {
+                    if stop.load(SeqCst) { return; }
+                    spins += 1;
+                    if spins % 4096 == 0 { std::thread::yield_now(); } else { std::hint::spin_loop(); }
+                }
+                let (key, c, kind, _) = keys[r];
+                for _ in 0..(rnd() % 24) { std::hint::spin_loop(); }
+                match w {
+                    0 => { let h = kr_goc(&reg, kind, key); rd.lock().unwrap().user = Some(h); }
+                    1 | 2 => {
+                        let mut burst: Vec<Key> = Vec::with_capacity(BURST);
+                        for _ in 0..BURST { burst.push(key.clone()); }
+                        let h = kr_goc(&reg, kind, &burst[0]);
+                        let g1 = kr_get(&reg, kind, &burst[BURST / 2]);
+                        let h2 = kr_goc(&reg, kind, &burst[BURST - 1]);
+                        let mut g = rd.lock().unwrap();
+                        g.racy.push((format!("cloner {} via its first clone", w), h));
+                        g.racy.push((format!("cloner {} via its last clone", w), h2));
+                        g.racy_gets.push(g1);
+                        g.clones.extend(burst);
+                    }
+                    _ => {
+                        let ci = class_info(c);
+                        let mut ps = ci.pairs.clone();
+                        if permutable(&ps) { ps.reverse(); }
+                        let k2 = Key::from_parts(ci.name.to_string(), ps.iter().map(|(a, b)| Label::new(a.clone(), b.clone())).collect::<Vec<Label>>());
+                        let h = kr_goc(&reg, kind, &k2);
+                        rd.lock().unwrap().racy.push(("an equal key built from owned parts".to_string(), h));
+                    }
+                }
+                done.fetch_add(1, SeqCst);
+            }
+        }));
+    }
+    let started = std::time::Instant::now();
+    let mut rounds_done = 0usize;
+    let mut free_clones = 0usize;
+    let mut by_ctor = [0usize; 3];
+    for r in 0..rounds_max {
+        go.store(r + 1, SeqCst);
+        let mut spins = 0u32;
+        let mut dead = false;
+        while done.load(SeqCst) < NW * (r + 1) {
+            spins += 1;
+            if spins % 4096 == 0 {
+                std::thread::yield_now();
+                if hs.iter().any(|h| h.is_finished()) && done.load(SeqCst) < NW * (r + 1) { dead = true; break; }
+            } else { std::hint::spin_loop(); }
+        }
+        if dead { err(format!("free-running round {}: a worker thread ended (panicked) inside the round", r)); break; }
+        let (key, c, kind, ctor) = keys[r];
+        let mut g = rd.lock().unwrap();
+        let tag = format!("free-running round {} ctor {} kind {}", r, ctor, kind);
+        free_clones += kr_check(&tag, &reg, &slog, kind, c, key, &g, &mut err);
+        *g = RoundData::default();
+        drop(g);
+        rounds_done += 1;
+        by_ctor[ctor] += 1;
+        if r % 64 == 0 && started.elapsed().as_millis() as u64 > budget_ms { break; }
+    }
+    stop.store(true, SeqCst);
+    go.store(usize::MAX, SeqCst);
+    for h in hs { if h.join().is_err() { err("a free-running worker thread panicked".to_string()); } }
+    let n = nerr.load(SeqCst);
+    let msgs = errors.lock().unwrap().join(" | ");
+    format!("KEYRACE ok={} failures={} (directed {} free {}) sched_runs={} sched_clones={} free_rounds={} free_clones={} ctor_rounds={}/{}/{} ms={} ; {}",
+            if n == 0 { 1 } else { 0 }, n, sched_failures, n - sched_failures, sched_runs, sched_clones, rounds_done, free_clones, by_ctor[0], by_ctor[1], by_ctor[2],
+            started.elapsed().as_millis(), msgs)
+}
+
 // only this property's own yield sites take part in the schedule: instrumented code of other
 // properties reached from here (e.g. Key::get_hash under a registry lock) must pass through
 fn own_site(site: u32) -> bool { (601..=615).contains(&site) }
@@ -629,6 +831,12 @@ fn main() {
         if let Some(r) = line.trim().strip_prefix("STRESS") {
             let a: Vec<u64> = r.split_whitespace().map(|x| x.parse().unwrap()).collect();
             writeln!(w, "{}", stress(a[0] as usize, a[1] as usize, a[2])).unwrap();
+            continue;
+        }
+        if let Some(r) = line.trim().strip_prefix("KEYRACE") {
+            let a: Vec<u64> = r.split_whitespace().map(|x| x.parse().unwrap()).collect();
+            let r = std::panic::catch_unwind(move || keyrace(a[0] as usize, a[1], a[2]));
+            writeln!(w, "{}", r.unwrap_or_else(|_| "KEYRACE ok=0 failures=1 ; the engine panicked".to_string())).unwrap();
             continue;
         }
         let l2 = line.clone();
